@@ -372,7 +372,7 @@ def _feeders(ctx, F):
         else:
             ctx.bad('GUARD-C08c', f, 'feeds %s from toc.frames without testing FrameStatus::Active: deleted/superseded frames would be indexed' % ', '.join(feeds),
                     detail='feeder-without-active-test', sink=','.join(feeds))
-    ctx.floor('GUARD-C08c', n, 6, 'index feeders that walk toc.frames')
+    ctx.floor('GUARD-C08c', n, 3, 'index feeders that walk toc.frames')
 
 
 def _inherit(ctx, F):
